@@ -310,7 +310,26 @@ Section Whole.
       as (A2 & B2 & C2 & D2).
     { rewrite Hrg1. apply rg_clear_rules0. }
     fold FR in A2, B2, C2, D2. cbn [Nat.add]. rewrite <- B1, <- C1 in A2, B2, C2, D2.
-    rewrite A2, B2, C2, D2. rewrite !filter_app. rewrite <- D1. rewrite <- !app_assoc. f_equal. f_equal.
-    unfold flush_queue. f_equal; apply filter_comm.
+    rewrite B2, C2, D2. rewrite !filter_app. rewrite <- D1. rewrite <- !app_assoc. reflexivity.
+  Qed.
+  (* falco-ignore-start before a root declaration and no falco-ignore-end: the range runs to the end of the file -
+     exactly the diagnostics of that declaration and of those after it go; the unused-declaration diagnostics of
+     the declarations BEFORE it stay (Lint ends the range before the lintUnused passes) *)
+  Theorem range_open_top before ki after k1 :
+    forallb range_free before = true -> range_free ki = true -> forallb range_free after = true ->
+    report (before ++ add_leading k1 c1 ki :: after)
+    = filter (region_filter [] (length before) (S (length after)) L) (report (before ++ ki :: after)).
+  Proof.
+    intros Hb Hfi Hfa. set (FR := region_filter [] (length before) (S (length after)) L).
+    unfold report. rewrite !run_kids_app. cbn zeta.
+    set (r1 := run_kids before [] 0 init [] []).
+    destruct (outside_kids' FR before [] 0 init [] []) as (A1 & B1 & C1 & D1).
+    { intros j p' r Hj Hp'. unfold FR, region_filter. cbn [fst snd].
+      rewrite (in_region_out [] (length before) (S (length after)) j p'); auto. lia. }
+    cbn [filter] in A1, B1, C1, D1. fold r1 in A1, B1, C1, D1.
+    destruct (region_run L c1 Hc1 [] (length before) ki after Hfi Hfa k1 (r_st r1) (r_qv r1) (r_qp r1))
+      as (_ & _ & B2 & C2 & D2). cbn zeta in B2, C2, D2. fold FR in B2, C2, D2.
+    cbn [Nat.add]. rewrite <- B1, <- C1 in B2, C2, D2.
+    rewrite B2, C2, D2. rewrite !filter_app. rewrite <- D1. rewrite <- !app_assoc. reflexivity.
   Qed.
 End Whole.
